@@ -128,13 +128,16 @@ def gen_env(rng, pf):
     folds = None
     if rng.random() < pf.get("p_folds", 0.4) and n >= 4:
         k = rng.randint(1, n - 2)
-        style = rng.choice(["disjoint", "overlap", "single", "nested"])
+        style = rng.choice(["disjoint", "overlap", "single", "nested", "same_start"])
         if style == "disjoint":
             folds = {"a": [core.iso(grid[0]), core.iso(grid[k])], "b": [core.iso(grid[k + 1] if k + 1 < n else grid[k]), core.iso(grid[-1])]}
         elif style == "overlap":
             folds = {"a": [core.iso(grid[0]), core.iso(grid[k])], "b": [core.iso(grid[max(0, k - 1)]), core.iso(grid[-1])]}
         elif style == "single":
             folds = {"a": [core.iso(grid[0]), core.iso(grid[k])], "b": [core.iso(grid[k]), core.iso(grid[k])]}
+        elif style == "same_start":
+            # two folds that start together and end apart, the longer one listed first
+            folds = {"a": [core.iso(grid[0]), core.iso(grid[-1])], "b": [core.iso(grid[0]), core.iso(grid[k])]}
         else:
             folds = {"a": [core.iso(grid[0]), core.iso(grid[-1])], "b": [core.iso(grid[1]), core.iso(grid[k])]}
         if rng.random() < 0.3:
